@@ -122,9 +122,44 @@ func signBytesFaithful(m sdk.Msg) (verdict string) {
 		return "undecodable: marshal"
 	}
 	if !bytes.Equal(want, got) {
+		if alt, ok := withoutEmptyController(m); ok {
+			if ab, err := alt.(interface{ Marshal() ([]byte, error) }).Marshal(); err == nil && bytes.Equal(ab, got) {
+				// the only difference: the document's controller list is present with zero entries in the message and
+				// absent in what the sign bytes decode to (finding F16, judged on its own)
+				return fmt.Sprintf("empty-controller: a document whose controller list is present with zero entries and the same document without the list share their sign bytes: %s", trunc(string(raw), 400))
+			}
+		}
 		return fmt.Sprintf("decoding the sign bytes gives another message: sign bytes %s", trunc(string(raw), 400))
 	}
 	return ""
+}
+
+// withoutEmptyController: a copy of a DID create/update message in which a controller list that is present and lists
+// nothing is removed; ok=false when the message is of another type or carries no such list.
+func withoutEmptyController(m sdk.Msg) (sdk.Msg, bool) {
+	strip := func(d *didtypes.DIDDocument) (*didtypes.DIDDocument, bool) {
+		if d == nil || d.Controller == nil || len(*d.Controller) != 0 {
+			return nil, false
+		}
+		nd := cloneDoc(d)
+		nd.Controller = nil
+		return nd, true
+	}
+	switch v := m.(type) {
+	case *didtypes.MsgCreateDIDRequest:
+		if nd, ok := strip(v.Document); ok {
+			cp := *v
+			cp.Document = nd
+			return &cp, true
+		}
+	case *didtypes.MsgUpdateDIDRequest:
+		if nd, ok := strip(v.Document); ok {
+			cp := *v
+			cp.Document = nd
+			return &cp, true
+		}
+	}
+	return nil, false
 }
 
 func allStringsUTF8(v reflect.Value, depth int) bool {
